@@ -94,6 +94,17 @@ class Ref:
         return f"&{self.uid}._{self.local}{list(self.path)}"
 
 
+class FloatV:
+    """concrete IEEE double (only constants; symbolic floats are outside E2 by construction)"""
+    __slots__ = ("v",)
+
+    def __init__(self, v):
+        self.v = v
+
+    def __repr__(self):
+        return f"{self.v}:f64"
+
+
 class Opaque:
     def __init__(self, what):
         self.what = what
@@ -279,6 +290,7 @@ class Engine:
         self.var_range = {}
         self.pending_lemmas = []
         self.div_cache = {}
+        self.summaries = {}
         self.exclusions = []  # (fn-name suffix, predicate(eng, st, args) -> cond, finding id)
         self._bcache = {}
         self._bkeep = []
@@ -426,10 +438,31 @@ class Engine:
                 q = -q
             return q, a - q * b
         if is_conc(b):
+            ba = self.bounds(a)
+            if ba[0] is not None and ba[0] >= 0:
+                ab = abs(b)
+                qa = Z(a) / ab   # non-negative dividend: truncation == floor
+                q = qa if b > 0 else -qa
+                return zsimp(q), zsimp(Z(a) - q * b)
+            # signed dividend: fresh quotient / remainder with the (linear) defining constraints
+            A = Z(a)
+            ck = ("tc", A.get_id(), b)
+            if ck in self.div_cache:
+                _A, _B, q, r, lemma = self.div_cache[ck]
+                if not any(l.get_id() == lemma.get_id() for l in st.pc[-200:]):
+                    st.pc.append(lemma); self.solver.add(lemma)
+                return q, r
+            q = z3.Int(f"qc!{next(self.fresh)}")
+            r = z3.Int(f"rc!{next(self.fresh)}")
             ab = abs(b)
-            qa = z3.If(Z(a) >= 0, Z(a) / ab, -((-Z(a)) / ab))  # z3 `/` on Int = Euclidean div
-            q = qa if b > 0 else -qa
-            return zsimp(q), zsimp(Z(a) - q * b)
+            lemma = z3.And(A == q * b + r, z3.If(A >= 0, z3.And(r >= 0, r < ab), z3.And(r <= 0, r > -ab)))
+            if None not in ba:
+                m = max(abs(ba[0]), abs(ba[1]))
+                self.var_range[str(q)] = (-m, m)
+            self.var_range[str(r)] = (-(ab - 1), ab - 1)
+            self.div_cache[ck] = (A, b, q, r, lemma)
+            st.pc.append(lemma); self.solver.add(lemma)
+            return q, r
         # symbolic divisor: fresh quotient / remainder tied by the division lemma
         A, B = Z(a), Z(b)
         ck = ("t", A.get_id(), B.get_id())
@@ -567,9 +600,9 @@ class Engine:
                 uid, loc, out = cur.uid, cur.local, list(cur.path)
             elif p[0] == "ivar":
                 iv = frame.vals.get(p[1])
-                if not isinstance(iv, IntV) or not is_conc(iv.e):
-                    raise TranslationError("symbolic array index")
-                out.append(("i", iv.e))
+                if not isinstance(iv, IntV):
+                    raise TranslationError("non-integer array index")
+                out.append(("i", iv.e) if is_conc(iv.e) else ("isym", iv.e))
             else:
                 out.append(p)
         return (uid, loc, tuple(out))
@@ -594,6 +627,14 @@ class Engine:
                     v = v.fields[p[1]]
                 else:
                     raise TranslationError(f"field of non-aggregate {v}")
+            elif p[0] == "isym":
+                # read through a symbolic index: ite-chain over the elements (bounds were asserted before)
+                if not isinstance(v, Agg) or not all(isinstance(f, IntV) for f in v.fields):
+                    raise TranslationError("symbolic index into a non-integer array")
+                e = v.fields[-1].e
+                for k in range(len(v.fields) - 2, -1, -1):
+                    e = z3.If(Z(p[1]) == k, Z(v.fields[k].e), Z(e))
+                v = IntV(v.fields[0].ty, zsimp(e))
             elif p[0] == "d":
                 if not isinstance(v, EnumV):
                     raise TranslationError(f"downcast of non-enum {v}")
@@ -643,6 +684,9 @@ class Engine:
                 return BoolV(False)
             if c == "()":
                 return UNIT
+            fm = re.match(r"^(-?[\d.]+(?:[eE][-+]?\d+)?)_?f64$", c)
+            if fm:
+                return FloatV(float(fm.group(1)))
             if re.match(r"^-?[\d.]+(e-?\d+)?_?f(32|64)$", c) or c in ("f64::EPSILON",) or c.startswith('"') or c.startswith("b\""):
                 return Opaque(c)
             if c.startswith("{") or c.startswith("<") and "promoted" not in c and " as " in c and "::" not in c.split(">")[-1]:
@@ -774,6 +818,14 @@ class Engine:
                 kind, to = m.group(3), m.group(2)
                 if kind == "IntToInt":
                     return self.cast_int(v, to)
+                if kind == "FloatToInt" and isinstance(v, FloatV) and to in INT_TYPES:
+                    lo, hi, _, _ = INT_TYPES[to]
+                    x = v.v
+                    if x != x:
+                        return IntV(to, 0)
+                    return IntV(to, max(lo, min(hi, int(x))))   # `as` saturates, truncates toward zero
+                if kind == "IntToFloat" and isinstance(v, IntV) and is_conc(v.e):
+                    return FloatV(float(v.e))
                 if kind in ("Transmute", "PtrToPtr") or kind.startswith("PointerCoercion"):
                     return v
                 raise TranslationError(f"cast kind {kind}: {rv}")
@@ -1099,6 +1151,11 @@ class Engine:
                 self.store_loc(s2, dest_loc, val)
             f2.bb = retbb
 
+        # 0. summaries (contracts proved by other obligations), keyed by function-name suffix
+        for suffix, fn in self.summaries.items():
+            if callee.endswith(suffix):
+                outs = fn(self, st, args)
+                return ("fork", [(c, (lambda s2, v=v: finish(s2, v))) for c, v in outs])
         # 1. crate-local function?
         item, subst = self.resolve_fn(callee, argtys, args)
         if item is not None and not getattr(st, "_skip_excl", False):
@@ -1154,7 +1211,7 @@ class Engine:
                     s2.panic_msg = f"panic: {msg} (in {callee})"
                 branches.append((cond, bad))
             else:
-                branches.append((cond, (lambda s2, val=val: finish(s2, val))))
+                branches.append((cond, (lambda s2, val=val: finish(s2, val(s2) if callable(val) else val))))
         return ("fork", branches)
 
     def resolve_fn(self, callee, argtys, args):
@@ -1206,6 +1263,12 @@ class Engine:
                 return sel[0], None
             if len(names) > 1:
                 raise TranslationError(f"ambiguous call {callee}: {sorted(names)}")
+            return None, None
+        if re.match(r"^\w+$", callee):
+            sel = [it for it in cands if "<impl at" not in it.name and self._params_match(it, argtys, None)]
+            names = {it.name for it in sel}
+            if len(names) == 1:
+                return sel[0], None
             return None, None
         # inherent / path call:  duration::Duration::from_parts  ->  duration::<impl at ..>::from_parts
         parts = callee.split("::")
